@@ -1639,6 +1639,137 @@ fn gen_f64_special(g: &mut Gen) {
     }
 }
 
+/// Every in-place / assigning form × all four constant/variable pairings, each followed by uses
+/// of the overwritten container: its constness (`history()`), a further operation with a
+/// variable of the same tape, one with a variable of ANOTHER tape (panics exactly when the
+/// overwritten container is now a variable of tape 0), derivatives through it, and a
+/// clear + reset cycle.
+fn gen_assign_followup(g: &mut Gen) {
+    // (line template with target `x` and other operand `y`, which name is overwritten)
+    let forms: Vec<(String, &str)> = {
+        let mut v: Vec<(String, &str)> = vec![];
+        for via in ["assign", "do"] {
+            for f in ["psq", "sub"] {
+                v.push((format!("lassign x y fn={} via={}", f, via), "x"));
+                v.push((format!("rassign y x fn={} via={}", f, via), "x"));
+            }
+            v.push((format!("uassign x fn=cube via={}", via), "x"));
+        }
+        v.push(("lassign x/ref y fn=axy via=assign".into(), "x"));
+        v.push(("rassign y x/ref fn=div via=assign".into(), "x"));
+        for (f, via) in [("aff", "map_mut"), ("scale", "with_index"), ("konst", "map_mut"), ("lift.0", "map_mut"), ("cap.0", "with_index")] {
+            v.push((format!("mapmut x fn={} via={}", f, via), "x"));
+        }
+        v
+    };
+    for kind in ["T", "M"] {
+        let shape = if kind == "T" { "a:2,b:1" } else { "r:1,c:2" };
+        for (line, target) in &forms {
+            for pairing in ["var_var", "var_const", "const_var", "const_const"] {
+                // a view cannot change the tape of the container it writes through
+                if line.contains("x/ref") && pairing == "const_var" {
+                    continue;
+                }
+                g.count(&format!("c06.assign_followup.{}.{}.{}", kind, line.split(' ').next().unwrap(), pairing));
+                g.op("@ tapes 2 fp".into());
+                let (xv, yv) = (pairing.starts_with("var"), pairing.ends_with("var"));
+                let (vx, vy, vv, vu) = (values(g, 2), values(g, 2), values(g, 2), values(g, 2));
+                g.op(if xv { format!("vars x {} {} {} t=0", kind, shape, vx) } else { format!("consts x {} {} {}", kind, shape, vx) });
+                g.op(if yv { format!("vars y {} {} {} t=0", kind, shape, vy) } else { format!("consts y {} {} {}", kind, shape, vy) });
+                g.op(format!("vars v {} {} {} t=0", kind, shape, vv));
+                g.op(format!("vars u {} {} {} t=1", kind, shape, vu));
+                g.op(line.clone());
+                // follow-up uses of the overwritten container
+                g.op(format!("emul s {} v", target));
+                g.op(format!("sub s2 u {} via=ref_ref", target));
+                g.op(format!("add s3 {} u via=val_ref", target));
+                g.op(format!("derivs s wrt={},v{} via=all", target, if yv { ",y" } else { "" }));
+                g.op(format!("derivs {} wrt=v{} via=for", target, if yv { ",y" } else { "" }));
+                g.op(format!("lassign v {} fn=add via=assign", target));
+                g.op("clear t=0".into());
+                g.op(format!("reset {} via=reset", target));
+                g.op("reset v via=do_reset".into());
+                g.op(format!("ediv z v {}", target));
+                g.op(format!("derivs z wrt=v,{} via=all", target));
+            }
+        }
+    }
+}
+
+/// PRODUCER → CONSUMER: a container made by each construction route is fed to each consumer
+/// (every operator on either side, the assigning forms, iteration as records and back, views —
+/// i.e. `from_existing` over borrowed / re-indexed / ranged / reversed / renamed sources —,
+/// `reset`, element access, `derivatives_for`).
+fn gen_producer_consumer(g: &mut Gen) {
+    for kind in ["T", "M"] {
+        let (shape, sq) = if kind == "T" { ("a:2,b:2", "a:2,b:2") } else { ("r:2,c:2", "r:2,c:2") };
+        let to = kind;
+        // producers of `p` from the variables `x` (and `v`)
+        let producers: Vec<(&str, Vec<String>)> = vec![
+            ("variables", vec![format!("vars p {} {} 3,0,1,5 t=0", kind, shape)]),
+            ("constants", vec![format!("consts p {} {} 0,2,2,1", kind, shape)]),
+            ("from_iter", vec![format!("fromiter p x to={} shape={} order=rm fn=aff", to, sq)]),
+            ("from_iter_indexed", vec![format!("fromiter p x to={} shape={} order=rm fn=scale via=with_index", to, sq)]),
+            ("from_iters", vec![format!("fromiters p,p9 x to={} shape={} fn=sq,id", to, sq)]),
+            ("map", vec!["map p x fn=sq via=map".into()]),
+            ("map_to_constants", vec!["map p x fn=konst via=with_index".into()]),
+            ("scalar_op", vec!["subsw p x 3 via=val_ref".into()]),
+            ("real_fn", vec!["exp p x via=ref".into()]),
+            ("unary", vec!["unary p x fn=cube".into()]),
+            ("operator", vec!["sub p x v via=ref_val".into()]),
+            ("binary", vec!["binary p v x fn=psq".into()]),
+            ("matmul", vec!["matmul p x v via=ref_ref".into()]),
+            ("left_assign", vec!["neg p x via=ref".into(), "lassign p v fn=div via=do".into()]),
+            ("right_assign_onto_constants", vec![format!("consts p {} {} 1,1,0,4", kind, shape), "rassign x p fn=psq via=assign".into()]),
+            ("reset_copy", vec!["addn p x 0 via=ref_ref".into(), "reset p via=reset".into()]),
+        ];
+        let views: Vec<&str> = if kind == "T" {
+            vec!["", "/ref", "/acc.1.0", "/tr.1.0", "/rg.0+2.0+2", "/rev.1.0", "/rn.x.xy"]
+        } else {
+            vec!["", "/ref", "/rg.0+2.0+2", "/rev.0.1"]
+        };
+        // consumers of `p` (result `r`, or `p` itself when it is overwritten)
+        let mut consumers: Vec<(String, Vec<String>, &str)> = vec![];
+        for (op, extra) in [("add", " via=val_ref"), ("sub", " via=ref_ref"), ("emul", ""), ("ediv", ""), ("binary", " fn=axy"), ("matmul", " via=ref_val")] {
+            consumers.push((format!("{}.left", op), vec![format!("{} r p v{}", op, extra)], "r"));
+            consumers.push((format!("{}.right", op), vec![format!("{} r v p{}", op, extra)], "r"));
+        }
+        for l in ["muln r p 3 via=ref_ref", "divsw r p 2 via=val_val", "neg r p via=val", "sqrt r p via=ref", "unary r p fn=aff"] {
+            consumers.push((l.split(' ').next().unwrap().to_string(), vec![l.to_string()], "r"));
+        }
+        consumers.push(("lassign.target".into(), vec!["lassign p v fn=psq via=assign".into()], "p"));
+        consumers.push(("lassign.other".into(), vec!["lassign v p fn=sub via=do".into()], "v"));
+        consumers.push(("rassign.target".into(), vec!["rassign v p fn=axy via=do".into()], "p"));
+        consumers.push(("uassign".into(), vec!["uassign p fn=cube via=assign".into()], "p"));
+        consumers.push(("mapmut".into(), vec!["mapmut p fn=aff via=with_index".into()], "p"));
+        consumers.push(("map".into(), vec!["map r p fn=sq via=with_index".into()], "r"));
+        consumers.push(("iter_as_records".into(), vec![format!("fromiter r p to={} shape={} order=rev fn=id", if kind == "T" { "M" } else { "T" }, if kind == "T" { "r:1,c:4" } else { "a:4" })], "r"));
+        consumers.push(("iter_into".into(), vec![format!("fromiter r p to={} shape={} order=rm fn=scale via=into", to, sq)], "r"));
+        consumers.push(("iter_chain".into(), vec![format!("fromiter r p to=T shape=a:8 order=rm chain=v")], "r"));
+        consumers.push(("reset".into(), vec!["reset p via=do_reset".into(), "emul r p v".into()], "r"));
+        consumers.push(("elem".into(), vec![format!("elem r p 1,0 via={}.get.val", if kind == "T" { "mut" } else { "matrix" })], "r"));
+        for view in views.iter().skip(1) {
+            consumers.push((format!("view{}", view.split('.').next().unwrap()), vec![format!("cos r p{} via=ref", view)], "r"));
+        }
+        for (pname, plines) in &producers {
+            for (cname, clines, out) in &consumers {
+                g.count(&format!("c06.producer_consumer.{}.{}.{}", kind, pname, cname.replace('/', "")));
+                g.op("@ tapes 1 fp".into());
+                let (vx, vv) = (values(g, 4), values(g, 4));
+                g.op(format!("vars x {} {} {} t=0", kind, shape, vx));
+                g.op(format!("vars v {} {} {} t=0", kind, shape, vv));
+                for l in plines {
+                    g.op(l.clone());
+                }
+                for l in clines {
+                    g.op(l.clone());
+                }
+                g.op(format!("derivs {} wrt=x,v via={}", out, if (pname.len() + cname.len()) % 2 == 0 { "all" } else { "for" }));
+            }
+        }
+    }
+}
+
 /// the witness of defect 11 and its mirror images, for tensors and matrices
 fn gen_constant_operand_matmul(g: &mut Gen) {
     for kind in ["T", "M"] {
@@ -1855,6 +1986,8 @@ pub fn gen(g: &mut Gen) {
     gen_element_access(g);
     gen_large(g);
     gen_degenerate(g);
+    gen_assign_followup(g);
+    gen_producer_consumer(g);
     gen_names(g);
     gen_f64_boundary(g);
     gen_f64_special(g);
